@@ -373,7 +373,7 @@ def run_case(case):
     if ctx.aborted:
         case.note(f'entry_aborted|{name}|{ctx.aborted}')
     for k in getattr(ctx, 'axes', {}):
-        case.note('axis|' + k)
+        case.note(k if k.startswith('axis2_') else 'axis|' + k)
     if not getattr(ctx, 'axes', {}):
         case.note('axis|plain_case')
     case.dev('case_wall_s', time.time() - t0)
@@ -543,10 +543,93 @@ def _suite_records(recs, tier, seed):
     return out, cov
 
 
+def _surface_audit(reached):
+    """Public callables exported by every photutils sub-package (its `__all__`, else its public names) vs the ones
+    the generated workload reached as an outermost public call (a class counts when any of its wrapped members,
+    constructor included, was reached).  Runs in a subprocess: the driver itself never imports photutils."""
+    code = r'''
+import importlib, inspect, json, pkgutil, sys, warnings
+warnings.simplefilter("ignore")
+import photutils
+out = {}
+subs = ["photutils." + m.name for m in pkgutil.iter_modules(photutils.__path__) if m.ispkg and m.name not in ("tests", "extern")]
+subs += ["photutils.psf.matching"]
+for sp in subs:
+    try:
+        mod = importlib.import_module(sp)
+    except Exception:
+        continue
+    names = getattr(mod, "__all__", None) or [n for n in dir(mod) if not n.startswith("_")]
+    for n in names:
+        o = getattr(mod, n, None)
+        if o is None or not callable(o) or inspect.ismodule(o):
+            continue
+        m = str(getattr(o, "__module__", ""))
+        if not m.startswith("photutils"):
+            continue
+        if inspect.isclass(o) and issubclass(o, Warning):
+            continue
+        kind = "class" if inspect.isclass(o) else ("function" if inspect.isfunction(o) else "compiled")
+        out[sp + ":" + n] = [m + "." + getattr(o, "__qualname__", n), kind]
+json.dump(out, sys.stdout)
+'''
+    try:
+        env = dict(os.environ)
+        repo = _repo()
+        if repo != '/repo':
+            env['PYTHONPATH'] = repo + os.pathsep + env.get('PYTHONPATH', '')
+        p = subprocess.run(['/venv/bin/python', '-c', code], capture_output=True, text=True, timeout=300, env=env)
+        exported = json.loads(p.stdout)
+    except Exception as exc:  # noqa: BLE001
+        return {'error': f'{type(exc).__name__}: {exc}'[:200]}
+    reached = set(reached)
+    # a class defined in module M as Q is reached when some reached name starts with a class of its MRO; the
+    # sentinel names members by their DEFINING class, so compare on the runtime-independent prefix M.Q.
+    prefixes = {}
+    for r in reached:
+        parts = r.rsplit('.', 1)
+        prefixes.setdefault(parts[0], 0)
+        prefixes[parts[0]] += 1
+    uniq = {}
+    for exp, (qual, kind) in exported.items():
+        uniq.setdefault(qual, (kind, []))[1].append(exp)
+    covered, uncovered = [], []
+    for qual, (kind, exps) in sorted(uniq.items()):
+        ok = (qual in reached) if kind != 'class' else (qual in prefixes)
+        (covered if ok else uncovered).append(qual)
+    reasons = {}
+    for q in uncovered:
+        if '.datasets.load.' in q:
+            reasons[q] = 'needs network / remote data files (no caller-owned arrays)'
+        elif '.geometry.' in q:
+            reasons[q] = 'compiled kernel, scalar arguments only; called by the table entry `geometry` but not wrappable'
+        elif q.endswith('Mixin') or '.attributes.' in q or q.endswith('Base') or q.endswith('.Aperture') \
+                or q.endswith('PixelAperture') or q.endswith('SkyAperture'):
+            reasons[q] = 'abstract base / mixin / descriptor: reached only through its concrete subclasses'
+        else:
+            reasons[q] = 'NOT covered'
+    return {'exported_names': len(exported), 'exported_distinct_callables': len(uniq),
+            'covered_callables': len(covered), 'uncovered_callables': len(uncovered),
+            'uncovered': reasons,
+            'uncovered_without_reason': sorted(q for q, r in reasons.items() if r == 'NOT covered')}
+
+
 def driver_legs(tier, seed, tmpdir, only=None):
     info = {}
     records = []
     gen = _generated_coverage(tmpdir)
+    audit = _surface_audit(gen.get('reached_names', {})) if gen.get('table_entries_run') else {}
+    gen['surface_audit'] = audit
+    if audit and 'error' not in audit:
+        records.append({'kind': 'case', 'pid': ID, 'tier': tier, 'seed': seed, 'shard': SUITE_SHARD + 1, 'idx': 0,
+                        'cls': 'surface_audit', 'params': {'workload': 'surface audit (no oracle)'},
+                        'digest': core.digest(['surface_audit']), 'nontrivial': False, 'nchecks': 0,
+                        'violations': [], 'skipped': None, 'maxdev': {},
+                        'notes': {'surface_exported_callables': audit['exported_distinct_callables'],
+                                  'surface_covered_callables': audit['covered_callables'],
+                                  'surface_uncovered_callables': audit['uncovered_callables'],
+                                  'surface_uncovered_without_reason': len(audit['uncovered_without_reason'])},
+                        'error': None})
     inc = []
     if gen['table_entries_run'] and gen['cells_run'] < gen['cells_total']:
         inc.append(f"generated workload covered {gen['cells_run']} of {gen['cells_total']} representation x condition cells")
@@ -556,7 +639,8 @@ def driver_legs(tier, seed, tmpdir, only=None):
     info['generated_workload'] = {'coverage': gen, 'inconclusive': inc}
     if tier == 'thorough':
         recs, rc, tail, wall = _pytest_leg(tmpdir)
-        records, cov = _suite_records(recs, tier, seed)
+        srecs, cov = _suite_records(recs, tier, seed)
+        records += srecs
         cov['wall_s'] = round(wall, 1)
         # M6 contracts evaluated while the suite ran (owned by other properties: shown, not judged here)
         ce, cb = {}, {}
